@@ -243,6 +243,84 @@ impl<'a> Hist<'a> {
             Ok(sealed) => {
                 let dump = dump_unsealed(sealed.verif_inner(), &self.w.names);
                 self.out.emit(&line, &format!("ok {} {}", action_text(&sealed.proposer_action().cloned()), dump));
+                // C07: the transactions root is the commitment the specification describes, and every transaction's
+                // position is provable (TIP-908: dense tree over sorted nosigs-hash ++ full-hash; before: SMT txhash -> tx)
+                let hdr = sealed.header();
+                let txs: Vec<Transaction> = sealed.transactions().cloned().collect();
+                let pp = sealed.verif_inner().verif_parts();
+                let tip908 = pp.network == NetID::Custom08;
+                let (root_ok, proofs_ok) = if tip908 {
+                    let mut leaves: Vec<Vec<u8>> = txs
+                        .iter()
+                        .map(|t| {
+                            let mut v = t.hash_nosigs().0 .0.to_vec();
+                            v.extend_from_slice(&tmelcrypt::hash_single(&stdcode::serialize(t).unwrap()).0);
+                            v
+                        })
+                        .collect();
+                    leaves.sort();
+                    let dt = novasmt::dense::DenseMerkleTree::new(&leaves);
+                    let mut ok = true;
+                    for t in &txs {
+                        match sealed.transaction_sorted_posn(t.hash_nosigs()) {
+                            Some(i) => {
+                                if i >= leaves.len() || !novasmt::dense::verify_dense(&dt.proof(i), hdr.transactions_hash.0, i, novasmt::hash_data(&leaves[i])) || leaves[i][..32] != t.hash_nosigs().0 .0 {
+                                    ok = false;
+                                }
+                            }
+                            None => ok = false,
+                        }
+                    }
+                    (dt.root_hash() == hdr.transactions_hash.0, ok)
+                } else {
+                    let db2 = novasmt::Database::new(novasmt::InMemoryCas::default());
+                    let mut smt: SmtMapping<Cas, TxHash, Transaction> = SmtMapping::new(db2.get_tree([0u8; 32]).unwrap());
+                    for t in &txs {
+                        smt.insert(t.hash_nosigs(), t.clone());
+                    }
+                    let mut ok = true;
+                    for t in &txs {
+                        let (v, proof) = smt.get_with_proof(&t.hash_nosigs());
+                        let key = tmelcrypt::hash_single(&stdcode::serialize(&t.hash_nosigs()).unwrap());
+                        if v.as_ref() != Some(t) || !proof.verify(hdr.transactions_hash.0, key.0, &stdcode::serialize(t).unwrap()) {
+                            ok = false;
+                        }
+                    }
+                    (smt.root_hash() == hdr.transactions_hash, ok)
+                };
+                self.out.fact("C07", "txroot-matches-spec", root_ok, if tip908 { "tip908" } else { "pre-tip908" });
+                self.out.fact("C07", "tx-membership-provable", proofs_ok, if tip908 { "tip908" } else { "pre-tip908" });
+                // every coin and pool of the sealed state is provable against the header's roots; an absent key is provably absent
+                let mut prov_ok = true;
+                {
+                    let ct = sealed.raw_coins_smt();
+                    for (k, v) in ct.iter().take(12) {
+                        let (val, proof) = ct.get_with_proof(k);
+                        if val.as_ref() != v.as_ref() || !proof.verify(hdr.coins_hash.0, k, &v) {
+                            prov_ok = false;
+                        }
+                    }
+                    let absent = tmelcrypt::hash_single(b"surely absent").0;
+                    let (val, proof) = ct.get_with_proof(absent);
+                    if !val.is_empty() || !proof.verify(hdr.coins_hash.0, absent, b"") || proof.verify(hdr.coins_hash.0, absent, b"x") {
+                        prov_ok = false;
+                    }
+                    let pt = sealed.raw_pools_smt();
+                    for (k, v) in pt.iter().take(6) {
+                        let (_, proof) = pt.get_with_proof(k);
+                        if !proof.verify(hdr.pools_hash.0, k, &v) {
+                            prov_ok = false;
+                        }
+                    }
+                    let ht = sealed.raw_history_smt();
+                    for (k, v) in ht.iter().take(4) {
+                        let (_, proof) = ht.get_with_proof(k);
+                        if !proof.verify(hdr.history_hash.0, k, &v) {
+                            prov_ok = false;
+                        }
+                    }
+                }
+                self.out.fact("C07", "state-entries-provable", prov_ok, "");
                 self.w.sealed.insert(dst.clone(), sealed);
                 self.bump(if action.is_some() { "op:seal-action" } else { "op:seal-none" });
                 Some(dst)
